@@ -34,12 +34,12 @@ type Finding struct {
 	ID         string   `json:"id"`
 	Features   []string `json:"features"` // all must be present among the case's features
 	AnyFeature []string `json:"any_feature,omitempty"`
-	Diagnostic string   `json:"diagnostic"` // regexp on the diagnostic class
+	Diagnostic string   `json:"diagnostic"`             // regexp on the diagnostic class
 	DetailRe   string   `json:"detail_match,omitempty"` // optional regexp on the violation detail (narrows to one call site)
 	dre        *regexp.Regexp
-	What       string   `json:"what"`
-	Witness    string   `json:"witness,omitempty"`
-	Commit     string   `json:"commit,omitempty"`
+	What       string `json:"what"`
+	Witness    string `json:"witness,omitempty"`
+	Commit     string `json:"commit,omitempty"`
 	re         *regexp.Regexp
 }
 
